@@ -47,6 +47,7 @@ def run_one(m, tier, seed):
             cmd = [os.path.join(VERIF, 'check'), prop, '--tier', tier,
                    '--seed', str(seed)]
             env['VERIF_NO_EVIDENCE'] = '1'
+            env.setdefault('VERIF_NO_SHRINK', '1')
             env['VERIF_REPLAY_DIR'] = '/var/tmp/mut-replays'
             p = subprocess.run(cmd, env=env, capture_output=True, text=True)
             viol = [l for l in p.stdout.splitlines()
